@@ -74,7 +74,7 @@ func Registry() []*Spec {
 	add(Spec{Property: "C14", Name: "VerifC14_Keys", Pkg: "jp",
 		Quick: map[string]int{"K": 2}, Thorough: map[string]int{"K": 3},
 		Covers: []string{"done"}, UnitDepth: 4,
-		Note: "Child(k) for every key of <= K symbolic bytes, 5 positions (first, after root, after child, after descent, in a union), String() and BracketString(): parses, fragment-wise equal, prints identically"})
+		Note: "Child(k) for every key of <= K symbolic bytes, 7 positions (first, after root, after child, after descent, in a union, as the string constant of a filter, inside the sub-path of a filter - the last two also evaluated), String() and BracketString(): parses, fragment-wise equal, prints identically"})
 	add(Spec{Property: "C14", Name: "VerifC14_Numbers", Pkg: "jp",
 		Quick: map[string]int{"NB": 99}, Thorough: map[string]int{"NB": 999999},
 		Covers: []string{"done"}, UnitDepth: 7,
